@@ -12,7 +12,8 @@ prop("C15",
                         "ssrb_cfg_tof_combined": 3000, "ssrb_cfg_tang_trimmed": 10000, "ssrb_cfg_max_segment_limited": 3000,
                         "zoom_cases_preserve_sum": 1000, "zoom_cases_preserve_values": 1000, "zoom_cases_preserve_projections": 1000,
                         "zoom_sum_checks": 2000, "zoom_com_checks": 1000, "zoom_uniform_checks": 150, "zoom_composition_checks": 10000,
-                        "zoom_comp_xy_overload": 1000, "zoom_comp_two_step_3d": 1000, "zoom_comp_two_step_xy_overload": 100,
+                        "zoom_comp_xy_overload": 1000, "zoom_comp_xy_overload_min_z_nonzero": 100,
+                        "zoom_comp_two_step_3d": 1000, "zoom_comp_two_step_xy_overload": 100,
                         "zoom_global_factor_checks": 1500, "zoom_geometry_checks": 4000},
               "thorough": {"ssrb_configs": 2000000, "ssrb_conservation_checks": 500000, "zoom_sum_checks": 30000,
                            "zoom_com_checks": 15000, "zoom_uniform_checks": 2500, "zoom_composition_checks": 150000}},
@@ -27,7 +28,8 @@ prop("C15",
            "totals compared when no range is trimmed.  odd case numbers = one zoom case: random image (1..6/9 x 3..12/18 x 3..12/18 "
            "voxels, standard and shifted index ranges, voxel sizes 0.8..6 mm, origins +-40 mm; positive / signed / constant block / "
            "single voxel inside a margin), zooms log-uniform in [0.3,3] plus exact 1, 0.5, 2, offsets up to 2.5 voxels, covering and "
-           "truncating output sizes, one of the three ZoomOptions.  non-trivial = SSRB: >= 10 counts in >= 2 input bins and >= 1 "
+           "truncating output sizes, one of the three ZoomOptions; 20% of the inputs have a z index range that does not start at 0 "
+           "(also for the xy-only overloads).  non-trivial = SSRB: >= 10 counts in >= 2 input bins and >= 1 "
            "configuration evaluated; zoom: non-constant image with >= 8 voxels.  distinct = distinct case descriptor; sub-evaluations "
            "= SSRB configurations"),
      technique=("runtime monitoring: differential oracle for rebinning (detector-pair events histogrammed directly at the coarse sampling vs "
@@ -41,7 +43,10 @@ prop("C15",
                  "are computed from the number of interpolation terms, coordinate rounding and the library's own 1e-5 sliver cut"),
      level_note=("trusted: the comparison code in harness/c15_rebin.cxx and the detector-pair map checked by C01; inverse_SSRB, "
                  "extend_projdata/interpolate_projdata, arc-corrected input, even TOF mashing, inputs whose segments have unequal axial "
-                 "compression and the SSRB template mode are not exercised; the absolute factor of preserve_projections is only pinned "
+                 "compression and the SSRB template mode are not exercised; whether SSRB(ProjDataInfo) rejects illegal arguments "
+                 "(num_segments_to_combine larger than the processed segment range) and which grid the xy-only zoom overload "
+                 "returns through its 'nothing to do' shortcut (zoom 1, offsets 0, new_size == x-size) are outside the statement "
+                 "and not checked (see the C15 triage report for the two defects seen there); the absolute factor of preserve_projections is only pinned "
                  "through the agreement of the 2-D and 3-D code paths"),
      assumptions=["SSRB input segments all have the same axial compression (SSRB.h: cannot handle unequal 'num_segments_to_combine')",
                   "TOF mashing factors and num_tof_bins_to_combine are odd (set_tof_mash_factor: 'TODO cope with even numbers')",
